@@ -82,7 +82,7 @@ PROPS = {
                          "newest one, has the current root context and state, and exists only if context, routine and state are set.",
                     note=NOTE + "The harness observes an instance's context only while it is inside the user function.",
                     technique=_TECH)),
-    "C14": dict(pid=14, coq=_COQ + ["Routine/ProofsC14.v", "Routine/ProofsC14b.v", "Routine/Sweep.v", "Routine/Props_C14.v"] + _BACKOFF_COQ, props_file="Routine/Props_C14.v", models=_MODELS + [_BACKOFF_MODEL], trusted=_TRUSTED + _TRUSTED_BACKOFF, assumptions=_ASSUME,
+    "C14": dict(pid=14, coq=_COQ + ["Routine/ProofsC14.v", "Routine/ProofsC14b.v", "Routine/Sweep.v", "Routine/Props_C14.v"] + _BACKOFF_COQ, props_file="Routine/Props_C14.v", extra_props_files=["Backoff/Props_C14_backoff.v"], models=_MODELS + [_BACKOFF_MODEL], trusted=_TRUSTED + _TRUSTED_BACKOFF, assumptions=_ASSUME,
                 meta=dict(
                     text="Coq theorems about the same model, per step from every state (hence along every event list): only API calls and retry "
                          "callbacks start instances; a recorded success is never re-run by SetContext; a recorded error is not re-run by SetContext "
